@@ -790,6 +790,24 @@ theorem inherited_override_must_supply (i : IVec) (hv : i.valid = true) (ho : i.
     rcases this with (h | h) | h <;> simp_all
   · rfl
 
+/-- CLAUSE 5 for a required-only override: whether the subclass accepts null for the member is what the
+scalar theorems say about the member declared by the subclass in the owner form (the dataclass family
+`dcKeepsDefault` changes the default, not the annotation) — in particular `nullable_accepts_null_exact`
+names the families on which null is rejected (among them `lateStrictNullable`: `nullable` is not
+recomputed for the copy). -/
+theorem inherited_override_null_as_declared_by_owner (i : IVec) (hv : i.valid = true) (ho : i.relist = .owner)
+    (hr : i.base.inreq = false) (hf : i.base.opts.fo = false)
+    (hu : (i.base.opts.ud && i.base.dflt.given) = false) :
+    (semI i).acceptsNull = (sem { i.base with inreq := true, via := .owner }).acceptsNull := by
+  have hvia : i.base.via = .own := by
+    simp only [IVec.valid, Bool.and_eq_true, beq_iff_eq] at hv; exact hv.2
+  have hov : i.overridden = true := by simp [IVec.overridden, ho]
+  have hred := asOverride_eq_owner i.base hr hvia hf hu
+  have hshape : i.overrideShape = some (render { i.base with inreq := true, via := .owner }) := by
+    simp only [IVec.overrideShape, overrideShapeD, hov, if_true, hred]; rfl
+  simp only [semI, hshape, inheritSem_acceptsNull]
+  rfl
+
 /-- the override does not look at `--force-optional` / `--use-default`: a member those options make
 omittable for the schema is required in the subclass all the same -/
 theorem override_ignores_relaxation_witness :
